@@ -24,10 +24,10 @@ PROGRAMS = {
 }
 
 
-def build_program(bdir, name, init='pattern'):
+def build_program(bdir, name, init='pattern', extra_flags=()):
     """-> harness executable for one example program"""
     P = PROGRAMS[name]
-    d = os.path.join(bdir, name + ('' if init == 'pattern' else '-' + init))
+    d = os.path.join(bdir, name + ('' if init == 'pattern' else '-' + init) + ''.join(re.sub(r'\W', '', f) for f in extra_flags))
     os.makedirs(d, exist_ok=True)
     inc = [*core.lib_flags(), '-I' + os.path.join(core.REPO, 'examples')]
     san = [s.replace('=pattern', '=' + init) for s in SAN]
@@ -36,7 +36,7 @@ def build_program(bdir, name, init='pattern'):
     if init == 'zero':
         san.append('-enable-trivial-auto-var-init-zero-knowing-it-will-be-removed-from-clang')
     # the build without auto-initialised locals is also the one without optimisation (the project's default CMake build)
-    base = ['clang', '-std=gnu99', '-O0' if init == 'none' else '-O1', '-g', '-w'] + san + inc
+    base = ['clang', '-std=gnu99', '-O0' if init == 'none' else '-O1', '-g', '-w'] + list(extra_flags) + san + inc
     ren = ['-D' + r for r in RENAMES]
     cmds, objs = [], []
     o = os.path.join(d, 'ex_wrap.o')
